@@ -241,7 +241,7 @@ pub fn random_transport(plan: &mut ClientPlan, rng: &mut Rng) {
     if rng.pct(10) {
         plan.pt.frame_pause = Some((*rng.pick(&[1u8, 2, 3, 4, 5]), *rng.pick(&[100u32, 800, 3_000]), rng.below(3) as u8));
     }
-    plan.pt.status_codes = rng.below(4) as u8;
+    plan.pt.status_codes = if rng.pct(20) { 4 + rng.below(256) as u16 } else { rng.below(4) as u16 };
     plan.pt.script_order = if rng.pct(35) { 1 + rng.below(3) as u8 } else { 0 };
     plan.pt.decorated = if rng.pct(30) { 1 + rng.below(3) as u8 } else { 0 };
     plan.pt.intermediate_timeout = if rng.pct(25) { Some(*rng.pick(&[0u8, 1, 30, 99])) } else { None };
@@ -949,6 +949,50 @@ impl Check for ClientCheck {
                 // boundary grid: pre x final, exhaustive over the listed boundary values
                 let pres: Vec<u64> = vec![0, 1, 2, 2500, 99_999, 100_000, 999_999_999_998, 999_999_999_999];
                 let n = pres.len() as u64 * 9 * 3;
+                // a reservation refused with an abort in one of the richer forms (currency code - the
+                // terminal's own, if it has one -, TLV container), then business as usual: what a refusal
+                // carried leaves no trace in later requests
+                fams.push(Family::new("refused_reservation_with_rich_abort_then_transaction", 4 * 3 * 3 * 2, true, |i, _| {
+                    let form = 1 + (i % 4) as u8;
+                    let own = [None, Some(826u16), Some(840)][((i / 4) % 3) as usize];
+                    let code = [0x6fu8, 0x64, 0xa1][((i / 12) % 3) as usize];
+                    let again = i / 36 == 1;
+                    let refused = OpSpec::Begin { token: "A".into(), res: ResOutcome { pre: 0, status: StatusMode::Absent, prints: 0, end: EndSpec::Abort(code) } };
+                    let t = if again { "A" } else { "B" };
+                    let mut p = ClientPlan::plain(vec![
+                        refused,
+                        OpSpec::Begin { token: t.into(), res: ResOutcome::success() },
+                        OpSpec::Commit { token: t.into(), amount: 1200, rev: RevOutcome::success(), cleanup: CleanupSpec::plain() },
+                        OpSpec::Begin { token: "C".into(), res: ResOutcome::success() },
+                        OpSpec::Cancel { token: "C".into(), rev: RevOutcome::success(), cleanup: CleanupSpec::plain() },
+                    ]);
+                    p.cfg.currency = 978;
+                    p.pt.abort_extras = form;
+                    p.pt.status_currency = own;
+                    p
+                }));
+                // a commit / cancel the terminal refuses, naming another receipt in its abort (2.10.1 form);
+                // the caller tries again: the token was closed by the first attempt, whatever the abort said
+                fams.push(Family::new("refused_reversal_names_another_receipt_then_retry", 2 * 2 * 3, true, |i, _| {
+                    let commit = i % 2 == 0;
+                    let retry_commit = (i / 2) % 2 == 0;
+                    let other = [42u16, 9999, 1][(i / 4) as usize];
+                    let ab = RevOutcome { pre: 0, status: false, prints: 0, end: EndSpec::Abort(0xb8) };
+                    let mk = |c: bool, rev: RevOutcome| if c {
+                        OpSpec::Commit { token: "A".into(), amount: 900, rev, cleanup: CleanupSpec::plain() }
+                    } else {
+                        OpSpec::Cancel { token: "A".into(), rev, cleanup: CleanupSpec::plain() }
+                    };
+                    let mut p = ClientPlan::plain(vec![
+                        OpSpec::Begin { token: "A".into(), res: ResOutcome::success() },
+                        mk(commit, ab),
+                        mk(retry_commit, RevOutcome::success()),
+                        OpSpec::Begin { token: "A".into(), res: ResOutcome::success() },
+                        mk(true, RevOutcome::success()),
+                    ]);
+                    p.pt.reversal_abort_receipt = Some(other);
+                    p
+                }));
                 // last emission point of a begin that runs on connection 1 (found by a dry run)
                 let after_begin: u16 = {
                     let mut p = ClientPlan::plain(vec![OpSpec::Begin { token: "tok".into(), res: ResOutcome::success() }]);
